@@ -580,3 +580,32 @@ def pitch(n):
 
 def name_pitch(name, octave):
     return 12 * octave + base(name[0]) + net(name)
+
+
+# ------------------------------------------------------------------ MIDI byte-level vocabulary
+
+def is_vlq(b, n):
+    """b is the Standard MIDI File variable-length quantity of n (0 <= n < 2**28): big-endian groups of 7 bits,
+    every byte but the last with bit 7 set"""
+    return ((len(b) == 1 and b[0] == n) if n < 128 else
+            (len(b) == 2 and b[0] == 128 + n // 128 and b[1] == n % 128) if n < 16384 else
+            (len(b) == 3 and b[0] == 128 + n // 16384 and b[1] == 128 + (n // 128) % 128 and b[2] == n % 128)
+            if n < 2097152 else
+            (len(b) == 4 and b[0] == 128 + n // 2097152 and b[1] == 128 + (n // 16384) % 128
+             and b[2] == 128 + (n // 128) % 128 and b[3] == n % 128))
+
+
+def starts_with(b, prefix):
+    """b begins with the bytes `prefix`"""
+    return len(b) >= len(prefix) and b[:len(prefix)] == prefix
+
+
+def twos8(n):
+    """two's complement byte of a small signed int"""
+    return n if n >= 0 else 256 + n
+
+
+def pow2_of(k):
+    """2 ** k for the exponents a MIDI time signature can carry"""
+    return (1 if k == 0 else 2 if k == 1 else 4 if k == 2 else 8 if k == 3 else 16 if k == 4
+            else 32 if k == 5 else 64 if k == 6 else 128 if k == 7 else -1)
